@@ -152,7 +152,7 @@ def r5_r6_connection(ck, cx, cls):
                   detail='flag-cleared-after-errback', loc=cx.floc(f),
                   message='connectionLost fails the pending deferreds while the protocol still reports itself connected: a request re-issued from an errback is registered on the dead connection and never fires')
         for e in errs:
-            ck.ob('R5', f.qn, 'fails with a ConnectionException', 'ConnectionException' in U(e.node), detail='errback-arg', loc=cx.floc(f))
+            ck.ob('R5', f.qn, 'fails with a ConnectionException', 'ConnectionException' in U(getattr(e, '_sub', None) or e.node), detail='errback-arg', loc=cx.floc(f))
     ck.ob('R5', f.qn, 'connectionLost walks the pending requests', loops > 0, detail='no-loop', loc=cx.floc(f))
     b = cx.method(cls, '_buildResponse')
     ck.saw('functions', b.qn)
